@@ -37,6 +37,9 @@ MIN_EVALS = {"raw.feature": 300, "dclab.feature": 300, "c01.write_ndarray.conten
 WATCHDOG_S = {"quick": 400, "thorough": 3000}
 
 CHUNKS = [256, 4096, 1024 ** 2]
+# None = the writer's default (zstd level 1)
+COMPRESSIONS = [None, None, {"compression": None}, {"compression": "gzip", "compression_opts": 4},
+                {"compression": "lzf"}]
 
 
 def plan(tier, seed):
@@ -147,7 +150,7 @@ def flavoured(data, feat, a, b, fl):
             return part[0]
         return part
     part = data[a:b]
-    if feat in ("image", "image_bg", "mask"):
+    if feat in ("image", "image_bg", "mask", "qpi_pha", "qpi_oah"):
         if b - a == 1 and fl == 1:
             return part[0]
         if fl == 2:
@@ -361,11 +364,13 @@ def run_history(ctx, idx, rng, model, sessions, chunk_bytes):
                 nontrivial = True
             h5 = None
             try:
+                ckw = COMPRESSIONS[int(rng.integers(0, len(COMPRESSIONS)))]
+                kw = {} if ckw is None else {"compression_kwargs": ckw}
                 if flavour == "h5file":
                     h5 = h5py.File(path, "a")
-                    hw = dclab.RTDCWriter(h5, mode=mode)
+                    hw = dclab.RTDCWriter(h5, mode=mode, **kw)
                 else:
-                    hw = dclab.RTDCWriter(path, mode=mode)
+                    hw = dclab.RTDCWriter(path, mode=mode, **kw)
                 wm.open(mode)
                 with hw:
                     for op in ops:
@@ -446,6 +451,13 @@ def prepare_model(rng, n=None, kinds=None):
     model = gd.gen_model(rng, n=n, kinds=kinds)
     if rng.random() < 0.25:
         model["features"][_TEMP] = rng.normal(size=(model["n"], 3, 2))
+    if rng.random() < 0.2:
+        # quantitative-phase features: float32 images and uint8 holograms
+        hh, ww = int(rng.integers(3, 9)), int(rng.integers(3, 9))
+        model["features"]["qpi_pha"] = rng.normal(size=(model["n"], hh, ww)).astype(np.float32)
+        if rng.random() < 0.5:
+            model["features"]["qpi_oah"] = rng.integers(0, 256, (model["n"], hh, ww),
+                                                        dtype=np.uint8)
     if rng.random() < 0.15:
         # only features sorting after "trace" next to a trace
         tr = model["features"].get("trace")
